@@ -430,3 +430,24 @@ Proof.
       [destruct (Y E) as [-> | ->]|rewrite (N E)]; lia. }
   rewrite Nat2Z.inj_succ. lia.
 Qed.
+
+(* a transaction whose body raises (at any point) is never committed *)
+Lemma abort_never_commits k n acts m :
+  snd (transaction k (Some n) acts m) <> 0 /\ fst (transaction k (Some n) acts m) = m.
+Proof.
+  assert (N : snd (transaction k (Some n) acts m) <> 0).
+  { unfold transaction. destruct (body k m empty_tx (firstn n acts)) as [t|[| |]]; cbn; discriminate. }
+  split; [exact N|]. now apply transaction_not_committed_noop.
+Qed.
+
+(* a rejected API call abandons the transaction whatever follows *)
+Lemma rejected_call_noop k m acts1 a acts2 t e :
+  body k m empty_tx acts1 = Ok t -> apply_action k m t a = Rej e ->
+  fst (transaction k None (acts1 ++ a :: acts2) m) = m /\ snd (transaction k None (acts1 ++ a :: acts2) m) <> 0.
+Proof.
+  intros B R.
+  assert (G : forall l t0 t1, body k m t0 l = Ok t1 -> body k m t0 (l ++ a :: acts2) = body k m t1 (a :: acts2)).
+  { induction l as [|x r IH]; intros t0 t1; cbn [body app]; [now intros [= ->]|].
+    destruct (apply_action k m t0 x); [apply IH|discriminate]. }
+  unfold transaction. rewrite (G _ _ _ B). cbn [body]. rewrite R. destruct e; cbn; split; (reflexivity || discriminate).
+Qed.
